@@ -34,7 +34,7 @@ def run(ctx, model_ok):
                             "(cel_iterv and the dispatcher cel_iter ARE modelled, tied by the kern stream and proved to terminate on batches)",
                             "definedness of the CylinderSegment closed form off its special sets (ported with opaque special functions; no theorem, in particular none that bhjmCylSeg / "
                             "bhjmCylSegInternal returns a value). Cuboid: the edge mask is proved to cover the zero set of all 24 logarithm factors "
-                            "CylinderSegment: the NaN rows of the dispatch are characterised exactly (`cylseg_nan_rows_characterised`); observers that `close` keeps off both base planes always get a row (`wrapper_never_dispatches_unhandled_partial`); the full statement is FALSE (`cylseg_apex_end_point_nan`, `cylseg_next_to_vertex_unhandled`, both reproduced on the real code: NaN); definedness of the individual closed forms (divisors, log / atanh arguments) off their special sets is not shown. Cuboid: the edge mask is proved to cover the zero set of all 24 logarithm factors "
+                            "CylinderSegment: the dispatch is total for every observer the wrapper lets through (`wrapper_never_dispatches_unhandled`, full strength after the repair of the surface masks; hypothesis |r1| <= |r2|); the NaN rows are characterised exactly (`cylseg_nan_rows_characterised`); definedness of the individual closed forms (divisors, log / atanh arguments) off their special sets is not shown (observers a relative 1e-9 off a base plane can return NaN: reported). Cuboid: the edge mask is proved to cover the zero set of all 24 logarithm factors "
                             "(`cuboid_defined_off_edges`), arctan2(0,0) is proved to occur exactly on the three edge lines incl. their extensions, where the general branch IS reached "
                             "(`cuboid_edge_extension_reaches_general`; harmless in IEEE arithmetic, probed); Triangle: defined off the closed edges EXCEPT on a spherical cap inside the branch-switch cone "
                             "(`triangle_defined_off_edges`, `triangle_cap_singular`; recorded finding near-vertex); Polyline: `polyline_masks_cover_singular`; "
